@@ -10,7 +10,14 @@ mkdir -p .build evidence
 (cd harness && RUSTFLAGS="--cfg amiquip_verif" cargo build --offline 2>&1 | tail -3)
 ./.build/target/debug/vh consts > .build/Consts.v.new
 cmp -s .build/Consts.v.new coq/Gen/Consts.v || cp .build/Consts.v.new coq/Gen/Consts.v
-python3 tools/rs2v.py /repo/src/connection_options.rs::make_tune_ok /repo/src/heartbeats.rs::Heartbeat.fire /repo/src/io_loop/channel_handle.rs::Channel0Handle.new > .build/Src.v.new && { cmp -s .build/Src.v.new coq/Gen/Src.v || cp .build/Src.v.new coq/Gen/Src.v; }
+python3 - <<'P'
+import json,subprocess,os
+for mod,specs in sorted(json.load(open("tools/rs2v_targets.json")).items()):
+    out=subprocess.run(["python3","tools/rs2v.py"]+specs,stdout=subprocess.PIPE,text=True).stdout
+    path="coq/Gen/%s.v"%mod
+    if out.strip() and (not os.path.exists(path) or open(path).read()!=out):
+        open(path,"w").write(out)
+P
 cd coq
 coq_makefile -f _CoqProject -o Makefile >/dev/null
 timeout 3000 make -j16 2>&1 | grep -v "^COQC\|^COQDEP\|Closed under\|^CoqMakefile" | tail -40
